@@ -34,6 +34,10 @@ def cases(draw):
     if kind == "linear":
         c["hp"] = {"t": "linear", "i": draw(st.sampled_from([1, 3, 8, 16, 33, 64, 160])), "o": draw(st.integers(1, 7)), "bias": draw(st.booleans())}
         c["batch"] = draw(st.lists(st.integers(1, 4), min_size=1, max_size=3))
+        if draw(st.integers(0, 9)) == 0:
+            # thousands of rows (long sequences x batch): sizes beyond any plausible blocking threshold, not multiples of it
+            c["batch"] = draw(st.sampled_from([[1030], [1500], [3, 700], [2, 23, 29], [2050], [4100]]))
+            c["hp"]["i"] = min(c["hp"]["i"], 16)
     else:
         c["hp"] = draw(M.conv_hparams())
         c["hw"] = draw(st.integers(3, 7))
